@@ -667,6 +667,19 @@ class HttpParser(abc.ABC, Generic[_MsgT]):
         self._upgraded = val
 
 
+def _check_port(authority: str) -> None:
+    """port = *DIGIT (RFC 3986 section 3.2.3).
+
+    yarl converts the port with int(), which also takes a sign, underscores
+    and surrounding white space: ":+080" must not be read as port 80.
+    """
+    _, bracket, rest = authority.rpartition("]")
+    hostport = rest if bracket else authority.rpartition("@")[2]
+    _, colon, port = hostport.rpartition(":")
+    if colon and port and not (port.isascii() and port.isdigit()):
+        raise ValueError("invalid port")
+
+
 class HttpRequestParser(HttpParser[RawRequestMessage]):
     """Read request status line.
 
@@ -709,6 +722,7 @@ class HttpRequestParser(HttpParser[RawRequestMessage]):
                 # connection left open).
                 url.host
                 url.port
+                _check_port(path)
             except ValueError:
                 raise InvalidURLError(
                     path.encode(errors="surrogateescape").decode("latin1")
@@ -741,6 +755,7 @@ class HttpRequestParser(HttpParser[RawRequestMessage]):
                     # yarl evaluates host and port lazily; a target such as
                     # "http://a:b/" would only fail later, in BaseRequest().
                     url.port
+                    _check_port(url.raw_authority)
                     if not url.host:
                         # https://www.rfc-editor.org/rfc/rfc9110#section-4.2.1-4
                         raise ValueError("empty host")
